@@ -152,6 +152,31 @@ CoverClauses(e, run, ids) ==
                   V("C09", l, "CoveredOnce: a factor between the moving unit and another relevant unit is missing from or duplicated in the pending events"))
            : c \in Range(e.cells)}
 
+(* Factor-file taggers: what the tagger generates for the present active point masses (e.fresh) against the index sets of the  *)
+(* factor file as FactorMap.tla instantiates them -- an oracle that does not go through the tagger: every line that contains   *)
+(* the active point mass's own index, once per other composite object (inter-object factors) or once (intra-object).           *)
+IdOf(u)     == Meta.units[u]
+UidOf(id)   == CHOOSE u \in Units : Meta.units[u] = id
+LeafIdx(u)  == IF Len(IdOf(u)) = 1 THEN 0 ELSE IdOf(u)[2]
+RootIdx(u)  == IdOf(u)[1]
+MkId(r, i)  == IF Meta.levels = 1 THEN <<r>> ELSE <<r, i>>
+InstSet(line, r, o) == {UidOf(IF line[j] < Meta.nleaves THEN MkId(r, line[j]) ELSE MkId(o, line[j] - Meta.nleaves)) : j \in DOMAIN line}
+ExpectedFactors(t, A) ==
+    LET fm == Meta.taggers[t].fmap IN
+    UNION {UNION {{InstSet(fm.lines[i], RootIdx(a), o) : o \in (IF fm.local = 1 THEN {RootIdx(a)} ELSE (0 .. Meta.nroots - 1) \ {RootIdx(a)})}
+                  : i \in {i \in DOMAIN fm.lines : \E j \in DOMAIN fm.lines[i] : fm.lines[i][j] = LeafIdx(a)}}
+           : a \in A}
+FactorClauses(e) ==
+    LET A == {s[1] : s \in {x \in Range(e.active) : IsLeaf(x[1]) /\ x[3] # 0}} IN
+    UNION {IF KindOfTag(t) = "factor_map" /\ Meta.taggers[t].fmap.kind = "map" /\ e.activated[t] = 1
+           THEN LET fr == FreshOf(e, t)
+                    got == {Range(fr[i]) : i \in DOMAIN fr}
+                IN  If(got # ExpectedFactors(t, A) \/ Len(fr) # Cardinality(got),
+                       V("C09", l, "FactorInStates: a factor-file tagger does not generate exactly the index sets of the file that contain an active point mass (each once)")
+                       \cup V("C10", l, "FactorInStates: a factor-file tagger does not generate exactly the index sets of the file that contain an active point mass (each once)"))
+           ELSE {}
+           : t \in Tags}
+
 RunStep(e) ==
     LET ret == e.ret
         hs  == {r[1] : r \in Range(ret)}
@@ -167,7 +192,7 @@ RunStep(e) ==
                       : t \in Tags}
         free == If(\E h \in hs : running[h], V("C09", l, "ReturnedWereFree: activator returned a handler that is already running"))
     IN  /\ running' = run1 /\ runids' = ids1
-        /\ viol' = viol \cup c09 \cup (IF e.prev = 0 THEN {} ELSE CoverClauses(e, run1, ids1)) \cup free \cup CellClauses(e) \cup (IF e.prev = 0 THEN {} ELSE PartitionClauses(e)) \cup DescClauses(e)
+        /\ viol' = viol \cup c09 \cup (IF e.prev = 0 THEN {} ELSE CoverClauses(e, run1, ids1)) \cup free \cup CellClauses(e) \cup (IF e.prev = 0 THEN {} ELSE PartitionClauses(e)) \cup DescClauses(e) \cup (IF e.prev = 0 THEN {} ELSE FactorClauses(e))
         /\ UNCHANGED <<g, ver, pend, sched, lastT, cur, commitT, started, nsamp, ncand>>
 
 (* ======================================================================== time (Candidate) *)
@@ -279,6 +304,8 @@ CommitStep(e) ==
                \cup If(h \in Handlers /\ ~pend[h].on, V("C08", l, "commit of a handler without pending candidate"))
                \cup If(h \in Handlers /\ Interaction(Kind(h)) /\ "c08" \in DOMAIN e /\ \E r \in Range(e.c08) : r[2] = 0 \/ r[3] > 1,
                        V("C08", l, "SameTrajectory: a unit of the in-state from which the committed candidate was computed has another velocity, or is off the straight line it was on (2^-30 L), in the global state"))
+        c17m == If(h \in Handlers /\ Kind(h) \in {"sampling", "end_of_run"} /\ t # NoTime /\ TFinite(commitT) /\ TKLt(t, commitT),
+                   V("C17", l, "SampleAfterLaterEvent: a sampling / end-of-run event is committed at a time before the previously committed event (the state it hands out is not the configuration at its nominal time)"))
         c07 == If(t # NoTime /\ TFinite(commitT) /\ TKLt(t, commitT), V("C07", l, "TimesMonotone: committed event time decreases"))
                \cup If(\E u \in Units : before[u][2] = 0 /\ after[u][2] = 0 /\ before[u][1] # after[u][1],
                        V("C07", l, "InactiveFixed: a unit without velocity changed its position"))
@@ -301,7 +328,7 @@ CommitStep(e) ==
     IN  /\ g' = after /\ ver' = ver1
         /\ commitT' = IF t # NoTime THEN t ELSE commitT
         /\ started' = (started \/ (h \in Handlers /\ Kind(h) = "start_of_run"))
-        /\ viol' = viol \cup c13 \cup c08 \cup c07 \cup c12 \cup DescClauses(e)
+        /\ viol' = viol \cup c13 \cup c08 \cup c07 \cup c17m \cup c12 \cup DescClauses(e)
         /\ UNCHANGED <<pend, running, runids, sched, lastT, cur, nsamp, ncand>>
 
 (* ======================================================================== trash *)
